@@ -193,7 +193,9 @@ def find_witness(d, rng, tries=40, pred=None):
     names = sorted(alg.free_names(d))
     pred = pred or (lambda v: abs(v) > 1e-7)
     for t in range(tries):
-        scale = (0.5, 1.0, 2.0, 3.0)[t % 4]
+        # the properties quantify over parameter magnitudes up to ~30: a regime that only large values reach (a clamp, a
+        # threshold) needs large draws to show
+        scale = (0.5, 1.0, 2.0, 3.0, 8.0, 20.0)[t % 6]
         env = {}
         for n in names:
             x = rng.gauss(0, scale)
